@@ -674,3 +674,115 @@ gproof! { fn c07_try_allocate_failure_is_err() {
     core::mem::forget(keep);
 } }
 
+
+// ------------------------------------------------------------------------------------------
+// C14: comparison, ordering, hashing and formatting see through the pointer (delegation, all answers)
+// ------------------------------------------------------------------------------------------
+use crate::vrt::{Ip, OP_CMP, OP_DEBUG, OP_DISPLAY, OP_EQ, OP_GE, OP_GT, OP_HASH, OP_LE, OP_LT, OP_NE, OP_PCMP};
+
+macro_rules! h_arc_cmp_delegates {
+    ($name:ident, $op:expr, $call:expr, $ret:ty, $expect:expr) => {
+        gproof! { fn $name() {
+            let (n, m) = (any_count(), any_count());
+            let a = mk(Ip(kani::any()), n);
+            let b = mk(Ip(kani::any()), m);
+            unsafe { vrt::IP_BOOL = kani::any(); vrt::IP_ORD = kani::any(); }
+            let f: fn(&Arc<Ip>, &Arc<Ip>) -> $ret = $call;
+            let r: $ret = f(&a, &b);
+            // exactly one call, of the same operation, on (&*a, &*b); its answer comes back unchanged
+            assert!(vrt::ip_only($op) && vrt::ip_args(data(&a), data(&b)));
+            let want: $ret = $expect;
+            assert!(r == want);
+            assert!(cnt(&a) == n && cnt(&b) == m && vrt::ga(2) && vrt::gd(0));
+            core::mem::forget(a);
+            core::mem::forget(b);
+        } }
+    };
+}
+// @h props=C14,C04 fuc=Arc::eq
+h_arc_cmp_delegates!(c14_arc_eq_delegates, OP_EQ, |a, b| a == b, bool, unsafe { vrt::IP_BOOL });
+// @h props=C14,C04 fuc=Arc::ne
+h_arc_cmp_delegates!(c14_arc_ne_delegates, OP_NE, |a, b| a != b, bool, unsafe { vrt::IP_BOOL });
+// @h props=C14,C04 fuc=Arc::partial_cmp
+h_arc_cmp_delegates!(c14_arc_partial_cmp_delegates, OP_PCMP, |a, b| a.partial_cmp(b), Option<core::cmp::Ordering>, vrt::ip_ord());
+// @h props=C14 fuc=Arc::lt
+h_arc_cmp_delegates!(c14_arc_lt_delegates, OP_LT, |a, b| a < b, bool, unsafe { vrt::IP_BOOL });
+// @h props=C14 fuc=Arc::le
+h_arc_cmp_delegates!(c14_arc_le_delegates, OP_LE, |a, b| a <= b, bool, unsafe { vrt::IP_BOOL });
+// @h props=C14 fuc=Arc::gt
+h_arc_cmp_delegates!(c14_arc_gt_delegates, OP_GT, |a, b| a > b, bool, unsafe { vrt::IP_BOOL });
+// @h props=C14 fuc=Arc::ge
+h_arc_cmp_delegates!(c14_arc_ge_delegates, OP_GE, |a, b| a >= b, bool, unsafe { vrt::IP_BOOL });
+// @h props=C14,C04 fuc=Arc::cmp
+h_arc_cmp_delegates!(c14_arc_cmp_delegates, OP_CMP, |a, b| a.cmp(b), core::cmp::Ordering,
+    match vrt::ip_ord() { Some(x) => x, None => core::cmp::Ordering::Equal });
+
+// @h props=C14 fuc=Arc::eq,Arc::ne,Arc::ptr_eq note="licence: same allocation => equal, value need not be consulted"
+gproof! { fn c14_arc_same_allocation_licence() {
+    let n = any_count();
+    kani::assume(n < isize::MAX as usize);
+    let a = mk(Ip(kani::any()), n);
+    let a2 = a.clone();
+    unsafe { vrt::IP_BOOL = kani::any(); }
+    let e = a == a2;
+    let c_eq = vrt::ip_total();
+    assert!((c_eq == 0 && e) || (c_eq == 1 && vrt::ip_calls(OP_EQ) == 1 && e == unsafe { vrt::IP_BOOL }));
+    let ne = a != a2;
+    let c_ne = vrt::ip_total() - c_eq;
+    assert!((c_ne == 0 && !ne) || (c_ne == 1 && vrt::ip_calls(OP_NE) == 1 && ne == unsafe { vrt::IP_BOOL }));
+    core::mem::forget(a);
+    core::mem::forget(a2);
+} }
+
+// @h props=C14,C04 fuc=Arc::hash
+gproof! { fn c14_arc_hash_delegates() {
+    use core::hash::Hash;
+    let n = any_count();
+    let a = mk(Ip(kani::any()), n);
+    let v = a.0;
+    let mut h = vrt::RecHasher::new();
+    let hp = &h as *const vrt::RecHasher as usize;
+    a.hash(&mut h);
+    assert!(vrt::ip_only(OP_HASH) && vrt::ip_args(data(&a), hp));
+    // the hasher saw exactly what hashing the value itself feeds it
+    let mut h2 = vrt::RecHasher::new();
+    (*a).hash(&mut h2);
+    assert!(h.n == h2.n && h.n == 1 && h.bytes[0] == v && h2.bytes[0] == v);
+    assert!(cnt(&a) == n);
+    core::mem::forget(a);
+} }
+
+// @h props=C14,C04 fuc=Arc::fmt(Debug),Arc::fmt(Display)
+gproof! { fn c14_arc_debug_display_delegate() {
+    let n = any_count();
+    let a = mk(Ip(kani::any()), n);
+    unsafe { vrt::IP_FMT_OK = kani::any(); }
+    let ok = vrt::debug_ok(&a);
+    assert!(vrt::ip_only(OP_DEBUG) && vrt::ip_args(data(&a), unsafe { vrt::FMT_ADDR }) && ok == unsafe { vrt::IP_FMT_OK });
+    let ok2 = vrt::display_ok(&a);
+    assert!(vrt::ip_calls(OP_DISPLAY) == 1 && vrt::ip_total() == 2 && vrt::ip_args(data(&a), unsafe { vrt::FMT_ADDR }));
+    assert!(ok2 == unsafe { vrt::IP_FMT_OK } && cnt(&a) == n);
+    core::mem::forget(a);
+} }
+
+// @h props=C14 fuc=Arc::borrow,Arc::as_ref note="an Arc<T> can stand in for T as a map key through Borrow"
+gproof! { fn c14_arc_borrow_asref_value_address() {
+    use core::borrow::Borrow;
+    let a = Arc::new(S9a8::any());
+    let b: &S9a8 = a.borrow();
+    let r: &S9a8 = a.as_ref();
+    assert!(vrt::addr(b as *const S9a8) == data(&a) && vrt::addr(r as *const S9a8) == data(&a));
+    core::mem::forget(a);
+} }
+
+// @h props=C14 fuc=Arc::eq,Arc::partial_cmp note="partially ordered payload (f32 incl. NaN), distinct allocations: == iff partial_cmp is Equal, relational ops agree"
+gproof! { fn c14_arc_f32_consistency() {
+    let (x, y): (f32, f32) = (kani::any(), kani::any());
+    let (a, b) = (Arc::new(x), Arc::new(y));
+    assert!((a == b) == (x == y) && (a != b) == (x != y));
+    assert!(a.partial_cmp(&b) == x.partial_cmp(&y));
+    assert!((a < b) == (x < y) && (a <= b) == (x <= y) && (a > b) == (x > y) && (a >= b) == (x >= y));
+    assert!((a == b) == (a.partial_cmp(&b) == Some(core::cmp::Ordering::Equal)));
+    core::mem::forget(a);
+    core::mem::forget(b);
+} }
